@@ -90,6 +90,11 @@ func (*connectHandler) SetTimeout(request *http.Request) (context.Context, conte
 	if len(timeout) > 10 {
 		return nil, nil, errorf(CodeInvalidArgument, "parse timeout: %q has >10 digits", timeout)
 	}
+	if timeout[0] == '+' || timeout[0] == '-' {
+		// ParseInt would accept a sign. The protocol doesn't: the value is a
+		// string of digits, and a negative one would start the call expired.
+		return nil, nil, errorf(CodeInvalidArgument, "parse timeout: %q is not a string of digits", timeout)
+	}
 	millis, err := strconv.ParseInt(timeout, 10 /* base */, 64 /* bitsize */)
 	if err != nil {
 		return nil, nil, errorf(CodeInvalidArgument, "parse timeout: %w", err)
